@@ -3,7 +3,7 @@
    the trusted sense-swapped copy exactly as Reader.load does and serves the same values (the temporary file, which no
    load ever trusts, is the only thing that may differ: after a failed exchange the code leaves it half exchanged). *)
 From Coq Require Import List Bool Arith NArith ZArith.
-From TEV Require Import Model.Reader Model.ReaderFS Gen.GenReader.
+From TEV Require Import Model.Reader Model.ReaderFS Gen.GenReader Proofs.ReaderP.
 Import ListNotations.
 
 Lemma swap_first_at n : forall f,
@@ -78,4 +78,37 @@ Proof.
   destruct (swapped_copy genes (d_raw d)) as [c|] eqn:E; cbn [fst d_raw d_final].
   - split; [reflexivity|right; reflexivity].
   - split; [reflexivity|left; reflexivity].
+Qed.
+
+(* ------------------------------------------------------------------ histories of loads through the translated code *)
+Definition gen_load (genes : list (N * N)) (w : how) (d : disk) : disk * option h5 :=
+  match w with ByCtor => gen_init true genes d | ByVerify => gen_verify_h5_cache genes d end.
+Fixpoint gen_history (genes : list (N * N)) (ws : list how) (d : disk) : list (option h5) :=
+  match ws with
+  | [] => []
+  | w :: r => snd (gen_load genes w d) :: gen_history genes r (fst (gen_load genes w d))
+  end.
+Fixpoint gen_final_disk (genes : list (N * N)) (ws : list how) (d : disk) : disk :=
+  match ws with [] => d | w :: r => gen_final_disk genes r (fst (gen_load genes w d)) end.
+
+Lemma gen_load_ok genes w d :
+  same_files (fst (gen_load genes w d)) (fst (load true genes w d)) /\ snd (gen_load genes w d) = snd (load true genes w d).
+Proof. destruct w; [apply gen_init_ok | apply gen_verify_h5_cache_ok]. Qed.
+
+Lemma good_disk_same genes raw v a b : same_files a b -> good_disk genes raw v b -> good_disk genes raw v a.
+Proof. intros [Hr Hf] [G1 G2]. unfold good_disk. rewrite Hr, Hf. split; assumption. Qed.
+
+(* every load of every sequence of loads through the translated constructor / verify_h5_cache serves the strand-aware view,
+   and the raw file stays what it was *)
+Theorem gen_loads_idempotent genes raw v ws : swapped_copy genes raw = Some v ->
+  forall d, good_disk genes raw v d ->
+    Forall (fun x => x = Some v) (gen_history genes ws d) /\ good_disk genes raw v (gen_final_disk genes ws d).
+Proof.
+  intros Hv. induction ws as [|w r IH]; intros d Hd; cbn [gen_history gen_final_disk].
+  - split; [constructor | exact Hd].
+  - destruct (gen_load_ok genes w d) as [Hs He].
+    assert (Hd' : good_disk genes raw v (fst (gen_load genes w d))).
+    { eapply good_disk_same; [exact Hs|]. exact (good_do_lop genes raw v d (Load w) Hv Hd). }
+    destruct (IH _ Hd') as [H1 H2]. split; [|exact H2].
+    constructor; [|exact H1]. rewrite He. exact (good_served genes raw v d w Hv Hd).
 Qed.
